@@ -5,8 +5,10 @@ Anything outside the subset raises TranslateError; the caller records the obliga
 "translation of <module>.<function>" as broken.  The mapping is 1:1 syntactic:
 
   x + y          -> py_add x y            x // y   -> py_floordiv x y     x % y -> py_mod x y
-  x is None      -> py_is_none x          a or b   -> let t := a in pif t then t else b
-  if c: A else B -> pif c then A else B   (statements after an `if` are duplicated into both arms)
+  x is None      -> py_is_none x          a or b   -> t = a; if t: pass else: t = b
+  if c: A else B -> py_if c A B           (statements after an `if` are duplicated into both arms;
+                                           conditional expressions and and/or are first hoisted into
+                                           statements, see Normalizer)
   k.start        -> py_attr "start" k     slice(a,b,c) -> py_slice a b c
   x in CONST     -> py_in x CONST         (module-level constants are resolved from the module's AST)
   np.result_type -> py_result_type (oracle model SF.Dtype.np_result_type)
@@ -89,6 +91,13 @@ class Module:
                 and isinstance(node.operand.value, int):
             return f'(PInt {coq_z(-node.operand.value)})'
         text = ast.unparse(node)
+        if isinstance(node, ast.Call) and ast.unparse(node.func) == 'slice' and 1 <= len(node.args) <= 3 and not node.keywords:
+            args = [self.const_expr(a, depth) for a in node.args]
+            if len(args) == 1:
+                args = ['PNone', args[0], 'PNone']
+            elif len(args) == 2:
+                args = args + ['PNone']
+            return f'(PSlice {args[0]} {args[1]} {args[2]})'
         if isinstance(node, ast.Call) and ast.unparse(node.func) == 'np.dtype' and len(node.args) == 1 and not node.keywords:
             arg = ast.unparse(node.args[0])
             if arg in _DTYPE_ARGS:
@@ -114,6 +123,98 @@ def const_literal(v):
     if isinstance(v, str):
         return f'(PStr {coq_str(v)})'
     raise TranslateError(f'unsupported literal {v!r}')
+
+
+class Normalizer:
+    '''Hoist IfExp / BoolOp out of expressions into statements (A-normal form for tests), so that
+    every test in the generated code is a statement-level py_if on a test-free expression.
+    Sound for the pure kernels translated here: expressions have no side effects and a Python
+    exception is a value (PErr) that an untaken branch simply discards.'''
+
+    def __init__(self):
+        self.n = 0
+
+    def fresh(self):
+        self.n += 1
+        return f'tmp{self.n}'
+
+    def expr(self, e):
+        '''-> (pre_statements, test-free expression)'''
+        if isinstance(e, ast.IfExp):
+            pre, c = self.expr(e.test)
+            t = self.fresh()
+            pa, a = self.expr(e.body)
+            pb, b = self.expr(e.orelse)
+            st = ast.If(test=c, body=pa + [self.assign(t, a)], orelse=pb + [self.assign(t, b)])
+            return pre + [st], ast.Name(id=t, ctx=ast.Load())
+        if isinstance(e, ast.BoolOp):
+            t = self.fresh()
+            pre, first = self.expr(e.values[0])
+            out = pre + [self.assign(t, first)]
+            for v in e.values[1:]:
+                pv, vv = self.expr(v)
+                tn = ast.Name(id=t, ctx=ast.Load())
+                if isinstance(e.op, ast.Or):
+                    out.append(ast.If(test=tn, body=[], orelse=pv + [self.assign(t, vv)]))
+                else:
+                    out.append(ast.If(test=tn, body=pv + [self.assign(t, vv)], orelse=[]))
+            return out, ast.Name(id=t, ctx=ast.Load())
+        if isinstance(e, ast.BinOp) and isinstance(e.op, (ast.FloorDiv, ast.Mod)):
+            # hoist the zero test of the divisor to statement level, so that no value of the
+            # generated code contains an undecided test
+            pl, left = self.expr(e.left)
+            pr, right = self.expr(e.right)
+            t = self.fresh()
+            tn = lambda: ast.Name(id=t, ctx=ast.Load())
+            guard = ast.If(test=ast.Compare(left=tn(), ops=[ast.Eq()], comparators=[ast.Constant(value=0)]),
+                           body=[ast.Raise(exc=ast.Name(id='ZeroDivisionError', ctx=ast.Load()), cause=None)], orelse=[])
+            fname = '__floordiv_nz' if isinstance(e.op, ast.FloorDiv) else '__mod_nz'
+            call = ast.Call(func=ast.Name(id=fname, ctx=ast.Load()), args=[left, tn()], keywords=[])
+            return pl + pr + [self.assign(t, right), guard], call
+        pre = []
+        for field, value in ast.iter_fields(e):
+            if isinstance(value, ast.expr):
+                p, v = self.expr(value)
+                pre += p
+                setattr(e, field, v)
+            elif isinstance(value, list):
+                new = []
+                for item in value:
+                    if isinstance(item, ast.expr):
+                        p, v = self.expr(item)
+                        pre += p
+                        new.append(v)
+                    else:
+                        new.append(item)
+                setattr(e, field, new)
+        return pre, e
+
+    def assign(self, name, value):
+        return ast.Assign(targets=[ast.Name(id=name, ctx=ast.Store())], value=value)
+
+    def stmts(self, body):
+        out = []
+        for s in body:
+            if isinstance(s, ast.If):
+                pre, t = self.expr(s.test)
+                out += pre + [ast.If(test=t, body=self.stmts(s.body), orelse=self.stmts(s.orelse))]
+            elif isinstance(s, ast.Return) and s.value is not None:
+                pre, v = self.expr(s.value)
+                out += pre + [ast.Return(value=v)]
+            elif isinstance(s, ast.Assign):
+                pre, v = self.expr(s.value)
+                out += pre + [ast.Assign(targets=s.targets, value=v)]
+            elif isinstance(s, ast.AnnAssign) and s.value is not None:
+                pre, v = self.expr(s.value)
+                out += pre + [ast.AnnAssign(target=s.target, annotation=s.annotation, value=v, simple=s.simple)]
+            elif isinstance(s, ast.Try):
+                if any(isinstance(x, (ast.IfExp, ast.BoolOp)) for b in s.body for x in ast.walk(b)):
+                    raise TranslateError('test inside try body')
+                s.handlers = [ast.ExceptHandler(type=h.type, name=h.name, body=self.stmts(h.body)) for h in s.handlers]
+                out.append(s)
+            else:
+                out.append(s)
+        return out
 
 
 class FuncTranslator:
@@ -155,14 +256,7 @@ class FuncTranslator:
                 return f'(py_neg {self.expr(n.operand)})'
             raise TranslateError(f'unary {type(n.op).__name__}')
         if isinstance(n, ast.BoolOp):
-            vals = [self.expr(v) for v in n.values]
-            acc = vals[-1]
-            for v in reversed(vals[:-1]):
-                if isinstance(n.op, ast.Or):
-                    acc = f'(let t := {v} in pif t then t else {acc})'
-                else:
-                    acc = f'(let t := {v} in pif t then {acc} else t)'
-            return acc
+            raise TranslateError('internal: BoolOp not hoisted')
         if isinstance(n, ast.Compare):
             if len(n.ops) != 1:
                 raise TranslateError('chained comparison')
@@ -184,7 +278,7 @@ class FuncTranslator:
                 raise TranslateError(f'comparison {type(op).__name__}')
             return f'({f} {self.expr(left)} {self.expr(right)})'
         if isinstance(n, ast.IfExp):
-            return f'(pif {self.expr(n.test)} then {self.expr(n.body)} else {self.expr(n.orelse)})'
+            raise TranslateError('internal: IfExp not hoisted')
         if isinstance(n, ast.Attribute):
             text = ast.unparse(n)
             if text in ('np.nan', 'np.NaN'):
@@ -200,9 +294,13 @@ class FuncTranslator:
             if n.keywords:
                 raise TranslateError('keyword arguments in call')
             f = ast.unparse(n.func)
+            if isinstance(n.func, ast.Attribute) and n.func.attr == 'indices' and len(n.args) == 1:
+                return f'(py_slice_indices {self.expr(n.func.value)} {self.expr(n.args[0])})'
             if f == 'isinstance' and len(n.args) == 2 and ast.unparse(n.args[1]) == 'np.dtype':
                 return f'(py_isinstance_dtype {self.expr(n.args[0])})'
             args = [self.expr(a) for a in n.args]
+            if f in ('__floordiv_nz', '__mod_nz') and len(args) == 2:
+                return f'(py{f[1:]} {args[0]} {args[1]})'
             if f in ('abs', 'len') and len(args) == 1:
                 return f'(py_{f} {args[0]})'
             if f in ('min', 'max') and len(args) == 2:
@@ -233,14 +331,48 @@ class FuncTranslator:
             raise TranslateError('raise of non-name')
         return f'(PErr {coq_str(exc.id)})'
 
-    def block(self, stmts):
-        '''Translate a statement list that must end every path in return/raise.'''
+    def assigned(self, stmts):
+        out = set()
+        for st in stmts:
+            for n in ast.walk(st):
+                if isinstance(n, ast.Assign):
+                    for t in n.targets:
+                        for e in ast.walk(t):
+                            if isinstance(e, ast.Name):
+                                out.add(e.id)
+                elif isinstance(n, ast.AnnAssign) and n.value is not None and isinstance(n.target, ast.Name):
+                    out.add(n.target.id)
+        return out
+
+    def terminates(self, stmts):
         if not stmts:
-            # falling off the end of a function returns None
-            return 'PNone'
+            return False
+        last = stmts[-1]
+        if isinstance(last, (ast.Return, ast.Raise)):
+            return True
+        if isinstance(last, ast.If):
+            return self.terminates(last.body) and self.terminates(last.orelse)
+        if isinstance(last, ast.Try):
+            return self.terminates(last.body) and all(self.terminates(h.body) for h in last.handlers)
+        return False
+
+    def fallthrough(self, k):
+        if k is None:
+            return 'PNone'   # falling off the end of a function returns None
+        name, ws = k
+        if not ws:
+            return f'({name} PNone)'
+        return '(' + name + ' ' + ' '.join(self.ident(w) if w in self.locals else '(PErr "UnboundLocalError")' for w in ws) + ')'
+
+    def block(self, stmts, k=None):
+        '''Translate a statement list; k is the join point (name, variables) reached on fall-through.'''
+        if not stmts:
+            return self.fallthrough(k)
         s, rest = stmts[0], stmts[1:]
         if isinstance(s, ast.Expr) and isinstance(s.value, ast.Constant) and isinstance(s.value.value, str):
-            return self.block(rest)  # docstring
+            return self.block(rest, k)  # docstring
+        if isinstance(s, ast.Pass):
+            return self.block(rest, k)
         if isinstance(s, ast.Return):
             return 'PNone' if s.value is None else self.expr(s.value)
         if isinstance(s, ast.Raise):
@@ -253,31 +385,60 @@ class FuncTranslator:
             else:
                 target = s.target
                 if s.value is None:
-                    return self.block(rest)
+                    return self.block(rest, k)
+            if isinstance(target, ast.Tuple) and all(isinstance(e, ast.Name) for e in target.elts):
+                # a, b, c = e  ->  let t := e in let a := t[0] in ...
+                value = self.expr(s.value)
+                self._tmp = getattr(self, '_tmp', 0) + 1
+                tmp = f'tup{self._tmp}'
+                names = [e.id for e in target.elts]
+                for nm in names:
+                    self.locals.add(nm)
+                inner = self.block(rest, k)
+                for i, nm in reversed(list(enumerate(names))):
+                    inner = f'(let {self.ident(nm)} := (py_unpack {len(names)} {tmp} {i}) in\n  {inner})'
+                return f'(let {tmp} := {value} in\n  {inner})'
             if not isinstance(target, ast.Name):
                 raise TranslateError('assignment to non-name')
             value = self.expr(s.value)
             self.locals.add(target.id)
-            return f'(let {self.ident(target.id)} := {value} in\n  {self.block(rest)})'
+            return f'(let {self.ident(target.id)} := {value} in\n  {self.block(rest, k)})'
         if isinstance(s, ast.If):
             test = self.expr(s.test)
             saved = set(self.locals)
-            a = self.block(list(s.body) + rest)
+            if not rest or (self.terminates(s.body) and self.terminates(s.orelse)):
+                a = self.block(list(s.body), k)
+                self.locals = set(saved)
+                b = self.block(list(s.orelse), k)
+                self.locals = saved
+                return f'(py_if {test}\n  {a}\n  {b})'
+            # join point: the statements after the `if` become a local function of the variables
+            # the arms may assign
+            ws = sorted(self.assigned(list(s.body) + list(s.orelse)))
+            self._join = getattr(self, '_join', 0) + 1
+            jname = f'join{self._join}'
+            self.locals = saved | set(ws)
+            rest_text = self.block(rest, k)
             self.locals = set(saved)
-            b = self.block(list(s.orelse) + rest)
-            self.locals = saved | self.locals
-            return f'(pif {test}\n  then {a}\n  else {b})'
+            a = self.block(list(s.body), (jname, ws))
+            self.locals = set(saved)
+            b = self.block(list(s.orelse), (jname, ws))
+            self.locals = saved
+            params = ' '.join(self.ident(w) for w in ws) if ws else '_'
+            return (f'(let {jname} := (fun ({params} : pv) =>\n  {rest_text}) in\n'
+                    f'  (py_if {test}\n  {a}\n  {b}))')
         if isinstance(s, ast.Try):
             if (len(s.body) == 1 and isinstance(s.body[0], ast.Return) and len(s.handlers) == 1
                     and isinstance(s.handlers[0].type, ast.Name) and not s.orelse and not s.finalbody):
                 body = self.expr(s.body[0].value)
-                h = self.block(list(s.handlers[0].body) + rest)
+                h = self.block(list(s.handlers[0].body) + rest, k)
                 return f'(py_try {body} {coq_str(s.handlers[0].type.id)} {h})'
             raise TranslateError('unsupported try form')
         raise TranslateError(f'statement {type(s).__name__}: {ast.unparse(s)[:60]}')
 
     def definition(self):
-        body = self.block(list(self.fn.body))
+        import copy
+        body = self.block(Normalizer().stmts(copy.deepcopy(list(self.fn.body))))
         params = ' '.join(self.ident(p) for p in self.params)
         sig = f'({params} : pv) ' if params else ''
         return f'Definition {self.coq_name} {sig}: pv :=\n  {body}.\n'
